@@ -36,6 +36,10 @@ def pick(rng, l):
   return l[int(rng.integers(0, len(l)))]
 
 
+NOQ = [0]
+NOQ_LAYERS = set()
+
+
 def gen_model(rng, idx, only_ind=False):
   import tensorflow.keras.layers as L
   from tensorflow.keras import Model, Input
@@ -46,6 +50,18 @@ def gen_model(rng, idx, only_ind=False):
   def wq(name, slot, pool=WQ):
     if only_ind:
       pool = [t for t in pool if t[2]]
+    # every fourth weighted layer leaves its FIRST weight slot unquantized and gives the later slots (pointwise / bias) a quantizer
+    # with a hardware tuple (po2 signs, auto_po2 scales): the signs / scales lists must stay aligned with the weights
+    if slot in ("kernel", "depthwise"):
+      NOQ[0] += 1
+      if NOQ[0] % 4 == 3:
+        NOQ_LAYERS.add(name)
+        meta.setdefault(name, []).append((slot, None, None, True))
+        return None
+    elif name in NOQ_LAYERS:
+      pool = [t for t in pool if t[0] in ("po2", "relu_po2", "auto_po2")] or pool
+      if only_ind:
+        pool = [t for t in pool if t[2]] or pool
     k, s, ind = pick(rng, pool)
     meta.setdefault(name, []).append((slot, k, s, ind))
     return s
